@@ -1,3 +1,4 @@
+import json
 """C01 — Reader returns calibrated voltages aligned with the probe geometry (spikeglx.Reader indexing)."""
 import os
 os.environ.setdefault('TQDM_DISABLE', '1')   # mtscomp's progress bars
@@ -927,8 +928,65 @@ def slice_box(ctx):
     ctx.note(f'exhaustive slice box: n <= {nmax}, start/stop in None, -n-2..n+2, +-1e9, step in None, 0, +-1..+-(n+1), +-1e9: {len(lines)} cases')
 
 
+def scale_cases(ctx):
+    """Recordings LONGER than any internal block a reader could use (2^16 samples, 60000, 30000, one second ...), a few channels
+    wide so that they stay cheap: stepped / negative / offset slices across those sizes, judged by the direct oracle
+    (NumPy indexing of the independently calibrated array).  The model's theorems do not depend on the length; these cases make
+    sure the IMPLEMENTATION does not either."""
+    for j in range(ctx.n(4, 16)):
+        rng = ctx.subrng(7, j)
+        spec = None
+        for t in range(400):
+            cand = gen_spec(ctx.subrng(7, j, t), 100000 + 400 * j + t, True)
+            if cand['nc'] <= 6 and not cand.get('inconsistent'):
+                spec = cand
+                break
+        if spec is None:
+            continue
+        ns = int(rng.choice([65537, 70001, 98304, 131073, 150000, 196613]))
+        nc = spec['nc']
+        spec['ns'] = ns
+        spec['backend'] = 'bin' if j % 2 == 0 else 'cbin'
+        spec['chunk'] = int(rng.choice([30000, 4096, 65536, 12345]))
+        spec['ctor'] = 'path-kw'
+        spec['reopen'] = False
+        ops = []
+        steps = [3, 5, 6, 7, 10, 30, 1, 2, 64, 1000, 65535, 65537]
+        for _ in range(10):
+            st = int(rng.choice(steps))
+            a = None if rng.random() < 0.4 else int(rng.integers(0, ns // 3))
+            b = None if rng.random() < 0.4 else int(rng.integers(2 * ns // 3, ns + 5))
+            if spec['backend'] == 'bin' and rng.random() < 0.25:
+                st, a, b = -st, b, a
+            csel = 's:_:_:_' if rng.random() < 0.6 else gen_sel(rng, nc)
+            ops.append(['read', 'getitem' if rng.random() < 0.7 else 'read',
+                        's:' + ':'.join('_' if v is None else str(v) for v in (a, b, st)), csel])
+        ops.append(['read', 'getitem', f's:0:{65536 + int(rng.integers(1, 30000))}:3', 's:_:_:_'])
+        ops.append(['rs', int(rng.integers(0, 1000)), int(rng.integers(ns - 500, ns + 1)), 'none'])
+        ops.append(['item1', f'i:{int(rng.integers(65536, ns))}'])
+        spec['ops'] = ops
+        spec['modes'] = [['plain', False] for _ in ops]
+        R = Recording(spec)
+        try:
+            res = oracle_recording(R)
+        finally:
+            R.close()
+        desc = {'k': spec['k'], 'fixture': spec['fixture'], 'backend': spec['backend'], 'sort': spec['sort'], 'ns': ns, 'nc': nc,
+                'op': ['scale'], 'chunk': spec['chunk']}
+        ctx.compare('scale', desc, 'ok' if res is None else 'C01 fails at scale: ' + json.dumps(jsonable_small(res))[:400], 'ok',
+                    tags=('scale', 'scale-ns>65536', 'backend=' + spec['backend']))
+        if res is not None:
+            ctx.scale_failures = getattr(ctx, 'scale_failures', []) + [(spec, res)]
+
+
+def jsonable_small(res):
+    op, obs, exp = res
+    return {'op': op, 'observed': str(obs)[:160], 'expected': str(exp)[:160]}
+
+
 def correspondence(ctx):
     slice_box(ctx)
+    scale_cases(ctx)
     nrec = ctx.n(800, 12000)
     batch = 130
     for b0 in range(0, nrec, batch):
@@ -1247,6 +1305,11 @@ def search(ctx, reasons):
         if n >= len(ctx.mismatches[:40]) + 25 and best is not None:
             break
     if best is None:
+        for spec, (op, obs, exp) in getattr(ctx, 'scale_failures', []):
+            shape = np.broadcast_to(np.int16(0), (spec['ns'], spec['nc']))
+            return {'input': _replay_input(spec, shape, op), 'observed': str(obs)[:600], 'expected': str(exp)[:600],
+                    'how': 'harness/props/c01.py scale_cases: a recording longer than 65536 samples (content regenerated from data_seed); '
+                           'oracle_recording = NumPy indexing of the independently calibrated array'}
         return None
     _, s2, D2, op2, obs2, exp2 = best
     return {'input': _replay_input(s2, D2, op2), 'observed': obs2, 'expected': exp2,
